@@ -31,7 +31,7 @@ ASSUMPTIONS = [
 ]
 COMPONENTS = {"real": ["pyxel.util.set_random_seed", "pyxel stochastic models", "exposure / observation paths", "dask get_async", "numpy legacy RNG"], "stub": ["thread pool", "numpy.random module functions wrapped as yield points", "pulse_processing.convert_to_phase (minutes-long physics replaced by a constant frame)"]}
 BUDGET = {"quick": {"n": 320, "wall": 110, "determinism": 4}, "thorough": {"n": 8000, "wall": 1600, "determinism": 12}}
-REQUIRED_REACH = ["kind:noseed-model", "kind:model", "kind:pipeline", "kind:own-seeds", "kind:failing", "path:exposure", "path:obs-seq", "path:obs-par", "rng_overlap_runs", "state_checked_after_error"]
+REQUIRED_REACH = ["prior_with_cached_gaussian", "kind:noseed-model", "kind:model", "kind:pipeline", "kind:own-seeds", "kind:failing", "path:exposure", "path:obs-seq", "path:obs-par", "rng_overlap_runs", "state_checked_after_error"]
 
 GROUPS = ["scene_generation", "photon_collection", "phasing", "charge_generation", "charge_collection", "charge_transfer", "charge_measurement", "signal_transfer", "readout_electronics", "data_processing"]
 
@@ -103,7 +103,7 @@ def _model_entry(name, kwargs, seed):
 
 def generate(rng, tier):
     kind = rng.choice(["model", "model", "pipeline", "pipeline", "pipeline", "own-seeds", "failing", "noseed-model"])
-    scn = {"kind": kind, "prior": [[rng.randrange(2**31), rng.randint(0, 40)], [rng.randrange(2**31), rng.randint(0, 40)]], "between": rng.choice(["none", "draws", "failed-run", "other-run"])}
+    scn = {"kind": kind, "prior": [[rng.randrange(2**31), rng.randint(0, 40), rng.randint(0, 3)], [rng.randrange(2**31), rng.randint(0, 40), rng.randint(0, 3)]], "between": rng.choice(["none", "draws", "failed-run", "other-run"])}
     if kind == "noseed-model":
         name = rng.choice(sorted(NOSEED))
         g, types, kws, needs = NOSEED[name]
@@ -211,10 +211,17 @@ def shrink(scn):
             yield c
 
 
+engine_stats: dict = {}
+
+
 def _set_prior(p):
     np.random.seed(p[0])
     if p[1]:
         np.random.random(p[1])
+    if len(p) > 2 and p[2]:
+        np.random.standard_normal(p[2])  # an odd count leaves a cached Gaussian deviate in the state
+        if p[2] % 2:
+            engine_stats["prior_with_cached_gaussian"] = 1
     return np.random.get_state()
 
 
@@ -302,6 +309,7 @@ def _run_world(scn, forced=None):
 
 def execute(scn, forced=None):
     world.reset_process_state()
+    engine_stats.clear()
     viol, stats = [], {}
     kind = scn["kind"]
     stats["kind:" + kind] = 1
@@ -346,6 +354,7 @@ def execute(scn, forced=None):
                 feat += "+pulse_processing"
         for n in names:
             stats["model:" + n] = 1
+    stats.update(engine_stats)
     e0, e1 = excs
     if (e0 is None) != (e1 is None) or (e0 is not None and type(e0) is not type(e1)):
         viol.append({"clause": "C04.repro", "signature": f"C04.repro-outcome@{feat}", "detail": {"first": repr(e0)[:200], "second": repr(e1)[:200]}})
